@@ -294,6 +294,17 @@ func TestF23(t *testing.T) {
 	}
 }
 
+// F25 (C04, repaired by 9ad6b38): the option splitter copied only the first byte of every
+// non-ASCII character of an option value.
+func TestF25(t *testing.T) {
+	r := mk(t, "||example.org^$client='Мой ноутбук'")
+	req := rules.NewRequest("http://example.org/", "", rules.TypeOther)
+	req.ClientName = "Мой ноутбук"
+	if !r.Match(req) {
+		t.Fatalf("$client='Мой ноутбук' does not match the client named so")
+	}
+}
+
 // F21 (C06, recorded, not repaired): a $urlblock and a $genericblock exception matching the
 // referrer tie in priority; the one listed first becomes the document rule, so a
 // domain-specific blocking rule is suppressed under one order of the rules and blocks under
